@@ -115,5 +115,24 @@ impl Monitor for C01 {
                 }
             }
         }
+        // "whenever solve returns a solution": also on a solver that has solved something before.
+        // A quarter of the cases solve a neighbouring problem first (one requirement dropped, or the
+        // hard part only), then the problem itself on the same solver.
+        if h % 4 == 0 {
+            let opts = &c.runs[0];
+            let mut sess = crate::run::Session::new(u.clone(), opts);
+            let mut first = c.p.hard();
+            if first.reqs.len() > 1 && h % 8 == 0 {
+                first.reqs.pop();
+            }
+            let _ = sess.solve(&first);
+            ctx.rep.evaluations += 1;
+            let out = sess.solve(&c.p);
+            note_outcome(ctx.rep, &out);
+            if let Outcome::Ok(sol) = &out {
+                ctx.rep.count("ok-on-a-reused-solver");
+                check_ok("reused-solver:", &rf, &c.p, sol, &sess, ctx, "second solve on one solver");
+            }
+        }
     }
 }
